@@ -821,3 +821,28 @@ Proof.
   destruct Hf as [a [Hf [Hk Ha]]]. rewrite <- Ha in Hv.
   exact (invalid_value_rejected CLI GROUP items out "features" a v post H eq_refl Hf Hk Hv).
 Qed.
+
+(* behind `--` every token is a positional word, whatever it looks like *)
+Fixpoint words_effect (spec : list arg_spec) (acc : list (str * str)) (ws : list str) : option (list (str * str)) :=
+  match ws with
+  | [] => Some acc
+  | w :: r => match next_positional spec acc with
+              | Some a => match push a w acc with Some acc' => words_effect spec acc' r | None => None end
+              | None => None
+              end
+  end.
+Lemma scan_trailing : forall spec ws acc out, words_effect spec acc ws = Some out -> scan spec ws true acc = PParsed out.
+Proof.
+  induction ws as [|w r IH]; intros acc out H; cbn in H; [inversion H; reflexivity|].
+  cbn [scan]. destruct (next_positional spec acc) as [a|]; [|discriminate].
+  destruct (push a w acc) as [acc'|]; [|discriminate]. apply IH. exact H.
+Qed.
+Lemma after_dashdash_positional : forall spec group items acc ws out,
+  items_effect spec [] items = Some acc -> words_effect spec acc ws = Some out ->
+  (group_members_present group out <= 1)%nat -> required_present spec out = true ->
+  parse spec group (render items ++ "--" :: ws) = PParsed out.
+Proof.
+  intros spec group items acc ws out H Hw Hg Hr. unfold parse. rewrite (scan_items spec items [] acc H).
+  cbn [scan]. change (str_eqb "--" "--") with true. cbv iota. rewrite (scan_trailing spec ws acc out Hw).
+  apply Nat.ltb_ge in Hg. rewrite Hg, Hr. reflexivity.
+Qed.
